@@ -82,6 +82,62 @@ def _check_defs(cases: list[dict]) -> list[dict]:
 	return failures
 
 
+def _py_kinds(text: str) -> list:
+	"""(name, kind) of every definition in document order, by Python's semantics read off CPython's ast"""
+	import ast
+	out = []
+
+	def walk(body, parent: str) -> None:
+		for n in body:
+			if isinstance(n, ast.ClassDef):
+				out.append((n.name, 'Class'))
+				walk(n.body, 'class')
+			elif isinstance(n, ast.FunctionDef):
+				decos = [d.id for d in n.decorator_list if isinstance(d, ast.Name)]
+				if parent == 'module':
+					kind = 'Function'
+				elif parent == 'class':
+					kind = 'ClassMethod' if 'classmethod' in decos else 'Constructor' if n.name == '__init__' else 'Method'
+				else:
+					kind = 'Closure'
+				out.append((n.name, kind))
+				walk(n.body, 'def')
+	walk(ast.parse(text).body, 'module')
+	return out
+
+
+def _check_nests(cases: list[dict]) -> dict:
+	from harness.tranp_env import Env, enter_scratch
+	import rogw.tranp.syntax.node.definition as defs
+	enter_scratch('verif-c02n-')
+	failures, machinery = [], []
+	for case in cases:
+		want = [(e['name'], e['kind']) for e in case['expect']]
+		if _py_kinds(case['text']) != want:
+			machinery.append(f'spec and CPython disagree on the definitions of {case["text"]!r}: {want} vs {_py_kinds(case["text"])}')
+			continue
+		path = ''.join(case['path'])
+		try:
+			entry = Env().reload_main(case['text']).entrypoint
+			got = [(n.symbol.tokens, type(n).__name__) for n in [entry, *entry.procedural()] if isinstance(n, defs.ClassDef) and not isinstance(n, (defs.AltClass, defs.TemplateClass))]
+		except Exception as e:
+			failures.append({'clause': 'accepted', 'detail': f'nesting {path}: {type(e).__name__}: {str(e)[:160]}', 'text': case['text'], 'kinds': f'nest:{path}'})
+			continue
+		if sorted(got) != sorted(want):
+			bad = sorted(set(got) ^ set(want))
+			failures.append({'clause': 'classification', 'detail': f'nesting {path} ({case["text"]!r}): tranp classifies {got}, Python semantics says {want}', 'text': case['text'], 'kinds': f'nest:{"/".join(sorted({k for _, k in bad}))}'})
+	return {'failures': failures, 'machinery': machinery}
+
+
+def load_nests() -> list[dict]:
+	import json
+	from harness import tlc
+	res = tlc.run('PyDefsEmit', 'PyDefs.cfg', workers=1, timeout=600)
+	if res.rc != 0 or res.lines('CLOSURE ') != ['TRUE'] or res.lines('CONSTRUCTOR ') != ['TRUE']:
+		raise Machinery(f'PyDefs: a model-level fact fails or evaluation error: {res.out[-600:]}')
+	return [json.loads(line) for line in res.lines('NEST ')]
+
+
 def run_statements(ctx: Ctx) -> tuple[list[Violation], dict]:
 	from harness import srcmodel
 	stmts, defcases = srcmodel.load_stmt_cases()
@@ -91,8 +147,14 @@ def run_statements(ctx: Ctx) -> tuple[list[Violation], dict]:
 	machinery = [m for r in results for m in r['machinery']]
 	if machinery:
 		raise Machinery(f'{len(machinery)} statement cases where spec and CPython disagree, e.g. {machinery[0]}')
-	failures = [f for r in results for f in r['failures']] + _check_defs(defcases)
-	ctx.log(f'{len(stmts)} statement skeletons + {len(defcases)} definition shapes: tranp differs on {len(failures)}')
+	nests = load_nests()
+	with ProcessPoolExecutor(max_workers=16) as ex:
+		nres = list(ex.map(_check_nests, [nests[i::16] for i in range(16)]))
+	machinery = [m for r in nres for m in r['machinery']]
+	if machinery:
+		raise Machinery(f'{len(machinery)} definition nestings, e.g. {machinery[0]}')
+	failures = [f for r in results for f in r['failures']] + _check_defs(defcases) + [f for r in nres for f in r['failures']]
+	ctx.log(f'{len(stmts)} statement skeletons + {len(defcases)} definition shapes + {len(nests)} definition nestings: tranp differs on {len(failures)}')
 	groups: dict[str, list] = {}
 	for f in failures:
 		groups.setdefault(f'{f["clause"]}:{f["kinds"]}', []).append(f)
